@@ -169,6 +169,8 @@ for _p in ("C01", "C02"):
 for _p in ("C20", "C22"):
     _aug(_p, " + RP: every selection MC_Link checks (pairs, thorough triples, of 9 files x debug) assembled and linked by the real crate in every order and validated by TLC (MC_LinkRP)",
          " RP: MC_LinkRP prints each selection; the harness assembles the files and links the set in every order and bracketing; TV_Asm validates every step.")
+_aug("C19", " + RP: every cut file of up to two chunks enumerated by TLC through the real binary reader (lc3v replay fmt)",
+     " RP: the RP configuration of MC_ObjFormat prints every file of up to two chunks cut at every length (3 960); each goes through the real binary reader and TV_Fmt compares verdict and object with BinRead.")
 _aug("C13", " + RP: TLC (MC_RunRP) prints every maximal behaviour with up to 2/3 free calls; each is replayed on the real simulator and validated by TLC",
      " RP: MC_RunRP prints each maximal behaviour (breakpoint set, calls, run until halted: 185, thorough 1 500); the harness performs them on real simulators and TV_Machine validates every call against Run!RunCall, the last one leaving the machine halted.")
 _aug("C12", " + RP: the programs of MC_TrapMode (one/two fragments) replayed on the real simulator under both trap modes and validated by TLC",
